@@ -8,6 +8,7 @@ offending look-ahead is discarded and parsing restarts from state 0 on whatever 
 still yields.  The rules below decide the structural conditions that close (a), (b), (c).
 """
 import ast
+import itertools
 
 from ..source import AnalysisError, norm, dotted, walk_no_nested, const_str
 from ..grammar import load_dialect, DIALECTS
@@ -200,7 +201,86 @@ def _strip_pattern_ok(pat):
     return all(ok_item(o, a) for o, a in items[:-1])
 
 
+def parse_sql_contract(ctx):
+    """parse_sql interpreted (sa/interp.py) with recording stand-ins for the lexer and the parser: the lexer gets the text with nothing but white space / semicolons
+    taken off its end, the parser gets exactly the lexer's tokens, once; the parser's tree is returned as it is, and `None` (= not a sentence) ends in
+    ParsingException.  -> [(label, ok, message)]; raises AnalysisError when the function cannot be interpreted."""
+    from ..interp import Interp, Obj, Raised, Env
+    file = 'mindsdb_sql/__init__.py'
+    fn = next((n for n in ctx.src.tree(file).body if isinstance(n, ast.FunctionDef) and n.name == 'parse_sql'), None)
+    if fn is None:
+        raise AnalysisError('parse_sql not found')
+    out = []
+    for text, result in itertools.product(('select 1', 'select 1;', ' select 1 ;;\n', "select ';' ; ", 'select 1 -- c;'), ('tree', None)):
+        toks = [Obj('Token', type=f'T{i}', value=f'v{i}', index=i, end=i + 1, lineno=1) for i in range(3)]
+        seen = {'text': [], 'parsed': []}
+        tree = Obj('Select', _the_tree=True)
+
+        class Lex:
+            _interp_safe = True
+            text = None
+
+            def tokenize(self, t, *a, **k):
+                seen['text'].append(t)
+                self.text = t
+                return iter(list(toks))
+
+        class Par:
+            _interp_safe = True
+            error_info = None
+
+            def parse(self, tokens):
+                seen['parsed'].append(list(tokens))
+                return tree if result == 'tree' else None
+        stubs = {'get_lexer_parser': lambda *a, **k: (Lex(), Par()), 'ErrorHandling': lambda it_, *a, **k: Obj('ErrorHandling', process=lambda *a2, **k2: 'MSG')}
+        it = Interp.for_file(ctx.src, file, {}, stubs)
+        raised, ret = None, None
+        try:
+            ret = it.call_function(fn, [text, 'mindsdb'], {}, Env())
+        except Raised as r:
+            raised = r.exc_name
+        label = f'{text!r} -> parser gives {"a tree" if result else "None"}'
+        got_text = seen['text'][0] if len(seen['text']) == 1 else None
+        text_ok = isinstance(got_text, str) and text.startswith(got_text) and not text[len(got_text):].strip(' \t\r\n\f\v;') and got_text.strip() != '' \
+            and got_text.rstrip(' \t\r\n\f\v;') == got_text.rstrip() and text.rstrip(' \t\r\n\f\v;').startswith(got_text.rstrip())
+        parsed_ok = len(seen['parsed']) == 1 and len(seen['parsed'][0]) == len(toks) and all(a is b for a, b in zip(seen['parsed'][0], toks))
+        if result == 'tree':
+            end_ok = raised is None and ret is tree
+        else:
+            end_ok = raised == 'ParsingException'
+        out.append((label, text_ok and parsed_ok and end_ok,
+                    f'[{label}] the lexer received {seen["text"]!r}, the parser was run {len(seen["parsed"])}x on '
+                    f'{"the lexer\'s tokens" if parsed_ok else "something other than exactly the lexer\'s tokens"}, parse_sql '
+                    f'{"raised " + raised if raised else "returned " + ("the parser\'s tree" if ret is tree else repr(ret)[:40])}: the text may lose only white space / '
+                    f'semicolons at its end, the parser must see every token once, its tree is the result and None means ParsingException'))
+    return out
+
+
 def check_parse_sql(ctx):
+    # the dataflow below reads the usual shape of parse_sql (and catches what a behavioural table on stand-in tokens cannot: a filter between lexer and parser);
+    # when the function is written in a shape the dataflow does not follow, the contract is decided by interpretation instead
+    from ..core import Ctx as _Ctx
+    trial = _Ctx(ctx.prop, ctx.src, ctx.tier)
+    try:
+        _check_parse_sql_dataflow(trial)
+        shape_ok = not [f for f in trial.findings if 'cannot prove' in f.msg or 'rebinds the input text' in f.msg or 'without a None test' in f.msg
+                        or 'is not the tree parser.parse returned' in f.msg]
+    except AnalysisError:
+        shape_ok = False
+    if shape_ok:
+        return _check_parse_sql_dataflow(ctx)
+    try:
+        rows = parse_sql_contract(ctx)
+    except AnalysisError:
+        return _check_parse_sql_dataflow(ctx)       # not interpretable either: the dataflow's own verdict stands
+    ctx.note('parse_sql is not written in the shape the dataflow rule reads: decided by the interpreted contract table')
+    for label, ok, msg in rows:
+        ctx.ob('C05.none-is-rejection', f'contract:{label}', ok, msg, file='mindsdb_sql/__init__.py', witness='select 1 1')
+    ctx.count('parse_sql_returns', len(rows))
+    ctx.count('pre_lex_edits', 1)
+
+
+def _check_parse_sql_dataflow(ctx):
     file = 'mindsdb_sql/__init__.py'
     tree = ctx.src.tree(file)
     fn = None
